@@ -290,6 +290,17 @@ done:
 static ares_status_t config_search(ares_sysconfig_t *sysconfig, const char *str,
                                    size_t max_domains)
 {
+  const char *p = str;
+
+  /* A value made of separators only names no domain.  ares_strsplit() returns
+   * NULL for it, which must not be mistaken for ARES_ENOMEM: ignore the line */
+  while (*p == ',' || *p == ' ') {
+    p++;
+  }
+  if (*p == 0) {
+    return ARES_SUCCESS;
+  }
+
   if (sysconfig->domains && sysconfig->ndomains > 0) {
     /* if we already have some domains present, free them first */
     ares_strsplit_free(sysconfig->domains, sysconfig->ndomains);
